@@ -193,7 +193,7 @@ Section OccRequests.
   Proof.
     intros Hcol. destruct (chunk_facts files f P Hch) as (ps & Hp & Hw & _ & _).
     unfold run_define. rewrite Hp. cbv zeta. rewrite Hw.
-    rewrite (request_name_at _ _ _ col true Htxt Hcol).
+    rewrite (request_name_at _ _ _ col Htxt Hcol).
     destruct (ident_at_line _ _ _ Htxt) as (Hl & _ & _). rewrite Hl.
     rewrite (define_is_binder W P (mws_of ps) f o d (Z.of_N col) Hbg Hin (proj1 (occ_guard_parts P o Hocc)) Hb Hcol).
     reflexivity.
@@ -208,7 +208,7 @@ Section OccRequests.
   Proof.
     intros Hcol. destruct (chunk_facts files f P Hch) as (ps & Hp & Hw & Hfo & _).
     unfold run_refs. rewrite Hp. cbv zeta. rewrite Hw.
-    rewrite (request_name_at _ _ _ col true Htxt Hcol).
+    rewrite (request_name_at _ _ _ col Htxt Hcol).
     destruct (ident_at_line _ _ _ Htxt) as (Hl & _ & _). rewrite Hl.
     destruct (refs_local_closed mode W P (mws_of ps) f o d (Z.of_N col) Hbg Hin Hocc Hb Hcol)
       as (l & Hrl & Hiff & Hnd1 & Hnd2).
@@ -225,7 +225,7 @@ Section OccRequests.
   Proof.
     intros Hcol. destruct (chunk_facts files f P Hch) as (ps & Hp & Hw & _ & _).
     unfold run_hover. rewrite Hp. cbv zeta. rewrite Hw.
-    rewrite (request_name_at _ _ _ col false Htxt Hcol).
+    rewrite (request_name_at _ _ _ col Htxt Hcol).
     destruct (ident_at_line _ _ _ Htxt) as (Hl & _ & _). rewrite Hl.
     apply hover_local_iff.
     destruct (position_is_binder W P (mws_of ps) f o d (Z.of_N col) Hbg Hin (proj1 (occ_guard_parts P o Hocc)) Hb Hcol)
